@@ -24,8 +24,10 @@ RULE = ("one case = a deterministic, functional program recorded through a real 
         "arguments: main and fallback key both recorded, old input before/after, fallback key sorting before/after the main "
         "key, list/function fallbacks, three cassettes); cross-process cases (kind xproc: recorded by one interpreter into a "
         "file-based cassette, each replay by another interpreter with its own PYTHONHASHSEED; inputs with two or three "
-        "captured arguments given by position AND name called with the same values in different positions, plus programs of "
-        "the main stream); output data handlers preparing an int / None; non-trivial = at "
+        "captured arguments given by position AND name called with the same values in different positions, an input called with "
+        "captured arguments of several KB that differ only at the end, plus programs of the main stream); a shared-value stream "
+        "(implementation only: one plain list / dict reachable twice inside an intercepted value, read twice, sent, returned; "
+        "copy-on-interception on / off, three cassettes); output data handlers preparing an int / None; non-trivial = at "
         "least two interceptions; distinct = distinct (program, cassette)")
 ASSUMPTIONS = ["worker threads are modelled at start/join granularity (Spawn: a thread started and joined by the operation's own code); "
                "true concurrency is not (the per-alias output counter is a non-atomic read-modify-write, runtime behaviour no "
@@ -645,7 +647,10 @@ MANIFEST = dict(
          "on hand-written operations that mutate their inputs in place after capture with copy-on-interception on (all container "
          "shapes, three cassettes; implementation only). Round 6: the history may be spread over several interpreter processes "
          "(recording process and every replaying process with a different PYTHONHASHSEED, file-based cassette in between) - model "
-         "and direct predicate apply unchanged; main alias and a recorded fallback alias both present in one recording.",
+         "and direct predicate apply unchanged; main alias and a recorded fallback alias both present in one recording. Round 7: "
+         "cross-process cases whose captured arguments encode to several KB (id lists, tables, long strings; values differing only "
+         "at the end); values in which one plain list / dict is reachable twice come back equal (value only - identity is not kept "
+         "by the cassette round trip, known finding F07c) with copy-on-interception on and off (implementation only).",
     note="Partial: worker threads inside an operation are not modelled (single-threaded theorem). Hypotheses: no "
          "enable/disable/play_data statements, restore(prepare v) = v, functional trace, canonical stored values (tree "
          "domain; sharing is known finding F07c). Trusted: Coq kernel + vm_compute, hand-written model, correspondence "
